@@ -31,12 +31,13 @@ Record variant := mkV {
   d5 : bool;   (* AAA addresses outside every pool are not recorded *)
   d7 : bool;   (* the unresolved answer dereferences a nil pool (panic) when the lease address is in no provider
                   pool network; fixed: error, no answer *)
+  d8 : bool;   (* restore keeps an address of the persisted image although re-reserving it conflicted (only logged) *)
   d6 : bool    (* component level only (used by the stage-B event mapping in ocaml/C02_run.ml, not by [step]):
                   a REQUEST that waited for AAA / session creation is ACKed by forwardPendingDHCPv4 /
                   forwardLatePendingPackets without handleAck, so the session does not record the address *)
 }.
-Definition Repaired : variant := mkV false false false false false false false.
-Definition Defective : variant := mkV true true true true true true true.
+Definition Repaired : variant := mkV false false false false false false false false.
+Definition Defective : variant := mkV true true true true true true true true.
 Inductive fam := F4 | F6 | FD.
 Definition fam_eqb (a b : fam) : bool :=
   match a, b with F4, F4 | F6, F6 | FD, FD => true | _, _ => false end.
@@ -247,6 +248,22 @@ Definition release_ip (v : variant) (f : fam) (x : item) (vrf s : N) (r : reg) :
 
 (* ---------------------------------------------------------------- DHCPv4 local provider lease table *)
 Record lease := mkLease { l_ip : N; l_mac : N; l_sid : N; l_pool : option N; l_exp : bool }.
+(* a subscriber session (defined here because the opdb store below keeps session images) *)
+Record sess := mkSess {
+  s_id : N; s_ppp : bool; s_prof4 : option N; s_prof6 : option N; s_mac : N;
+  s_live : bool;
+  s_started : bool;            (* PPPoE: AAA answered (AllocCtx built); IPoE: allocation context exists *)
+  s_vrf : N;
+  s_ov4 : option N; s_ov6 : option N; s_ovd : option N;      (* pool overrides *)
+  s_a4 : option N; s_a6 : option N; s_ad : option item;      (* PPPoE: IPv4Address/IPv6Address/IPv6Prefix;
+                                                                IPoE: ctx.IPv4Address/IPv6Address/IPv6Prefix *)
+  s_p4 : option N; s_p6 : option N;                          (* PPPoE allocatedPool / allocatedIANAPool *)
+  s_told : option N;           (* PPPoE: IPCP peer address; IPoE: yiaddr of the last OFFER/ACK *)
+  s_ipcp : bool;               (* PPPoE: an IPCP Configure-Request has been processed;
+                                  IPoE: the session knows the client's DUID (a DHCPv6 SOLICIT was seen) *)
+  s_b4 : option N; s_b6 : option N; s_bd : option item       (* IPoE: bound (ACKed / advertised) *)
+}.
+
 (* plugins/dhcp6/local lease tables (Resolved path).  Lease objects are immutable once created apart from their
    expiry, and only SessionID is read through the by-address / by-prefix tables, so values are stored directly. *)
 Fixpoint iassoc {A} (k : item) (l : list (item * A)) : option A :=
@@ -268,7 +285,9 @@ Record prov := mkProv {
   by_mac : list (N * N);       (* p.leases     : MAC -> object *)
   by_ip : list (N * N);        (* p.leasesByIP : IP  -> object *)
   next_obj : N;
-  p6 : prov6
+  p6 : prov6;
+  store : list (N * sess)     (* opdb: session id -> the image written by the last checkpoint (json of the session);
+                                 the only part of [prov] that survives a restart *)
 }.
 Fixpoint lassoc (k : N) (l : list (N * lease)) : option lease :=
   match l with [] => None | (a, b) :: r => if a =? k then Some b else lassoc k r end.
@@ -277,7 +296,7 @@ Definition lset (k : N) (v : lease) (l : list (N * lease)) : list (N * lease) :=
 Definition prov_new (pr : prov) (ip mac sid : N) (pool : option N) : prov :=
   let id := next_obj pr in
   mkProv ((id, mkLease ip mac sid pool false) :: objs pr) (setassoc mac id (by_mac pr))
-         (setassoc ip id (by_ip pr)) (id + 1) (p6 pr).
+         (setassoc ip id (by_ip pr)) (id + 1) (p6 pr) (store pr).
 
 (* Provider.reserveIP.  R3 (Repaired): the expiry take-over drops the stale lease without touching the
    registry (the registry lease belongs to whoever holds it now). *)
@@ -289,13 +308,13 @@ Definition prov_reserve (v : variant) (pr : prov) (r : reg) (ip mac sid : N) (po
       | Some l =>
           if l_mac l =? mac then
             let l' := mkLease (l_ip l) (l_mac l) (l_sid l) (l_pool l) false in
-            (mkProv (lset id l' (objs pr)) (by_mac pr) (by_ip pr) (next_obj pr) (p6 pr), r, true)
+            (mkProv (lset id l' (objs pr)) (by_mac pr) (by_ip pr) (next_obj pr) (p6 pr) (store pr), r, true)
           else if l_exp l then
             let r' := match d3 v, l_pool l with
                       | true, Some k => release_pool Defective F4 k (l_ip l, 0) (l_sid l) r
                       | _, _ => r
                       end in
-            let pr' := mkProv (objs pr) (unassoc (l_mac l) (by_mac pr)) (unassoc ip (by_ip pr)) (next_obj pr) (p6 pr) in
+            let pr' := mkProv (objs pr) (unassoc (l_mac l) (by_mac pr)) (unassoc ip (by_ip pr)) (next_obj pr) (p6 pr) (store pr) in
             (prov_new pr' ip mac sid pool, r', true)
           else (pr, r, false)
       | None => (pr, r, false)
@@ -314,7 +333,7 @@ Definition prov_release (v : variant) (pr : prov) (r : reg) (mac sid : N) : prov
                     | Some k => release_pool v F4 k (l_ip l, 0) sid r
                     | None => r
                     end in
-          (mkProv (objs pr) (unassoc mac (by_mac pr)) (unassoc (l_ip l) (by_ip pr)) (next_obj pr) (p6 pr), r')
+          (mkProv (objs pr) (unassoc mac (by_mac pr)) (unassoc (l_ip l) (by_ip pr)) (next_obj pr) (p6 pr) (store pr), r')
       | None => (pr, r)
       end
   | None => (pr, r)
@@ -324,14 +343,19 @@ Definition prov_age (pr : prov) (mac : N) : prov :=
   | Some id =>
       match lassoc id (objs pr) with
       | Some l => mkProv (lset id (mkLease (l_ip l) (l_mac l) (l_sid l) (l_pool l) true) (objs pr))
-                         (by_mac pr) (by_ip pr) (next_obj pr) (p6 pr)
+                         (by_mac pr) (by_ip pr) (next_obj pr) (p6 pr) (store pr)
       | None => pr
       end
   | None => pr
   end.
 
 Definition with_p6 (pr : prov) (q : prov6) : prov :=
-  mkProv (objs pr) (by_mac pr) (by_ip pr) (next_obj pr) q.
+  mkProv (objs pr) (by_mac pr) (by_ip pr) (next_obj pr) q (store pr).
+(* checkpointSession / deleteSessionCheckpoint *)
+Definition ckpt (pr : prov) (s : sess) : prov :=
+  mkProv (objs pr) (by_mac pr) (by_ip pr) (next_obj pr) (p6 pr) ((s_id s, s) :: punassoc (s_id s) (store pr)).
+Definition unckpt (pr : prov) (sid : N) : prov :=
+  mkProv (objs pr) (by_mac pr) (by_ip pr) (next_obj pr) (p6 pr) (punassoc sid (store pr)).
 (* Provider.handleSolicit / handleRequest with Resolved (client asks for IA_NA and IA_PD; DUID = MAC):
    a retried SOLICIT of the same session is answered without touching the tables; otherwise reserveIANA, then
    reservePD; a table entry of another session is a conflict (error, no answer; an IA_NA entry written before a
@@ -390,19 +414,6 @@ Definition prov6_release (v : variant) (q : prov6) (r : reg) (duid sid : N) : pr
   end.
 
 (* ---------------------------------------------------------------- sessions *)
-Record sess := mkSess {
-  s_id : N; s_ppp : bool; s_prof4 : option N; s_prof6 : option N; s_mac : N;
-  s_live : bool;
-  s_started : bool;            (* PPPoE: AAA answered (AllocCtx built); IPoE: allocation context exists *)
-  s_vrf : N;
-  s_ov4 : option N; s_ov6 : option N; s_ovd : option N;      (* pool overrides *)
-  s_a4 : option N; s_a6 : option N; s_ad : option item;      (* PPPoE: IPv4Address/IPv6Address/IPv6Prefix;
-                                                                IPoE: ctx.IPv4Address/IPv6Address/IPv6Prefix *)
-  s_p4 : option N; s_p6 : option N;                          (* PPPoE allocatedPool / allocatedIANAPool *)
-  s_told : option N;           (* PPPoE: IPCP peer address; IPoE: yiaddr of the last OFFER/ACK *)
-  s_ipcp : bool;               (* PPPoE: an IPCP Configure-Request has been processed *)
-  s_b4 : option N; s_b6 : option N; s_bd : option item       (* IPoE: bound (ACKed / advertised) *)
-}.
 
 Record state := mkState { st_reg : reg; st_sess : list sess; st_prov : prov }.
 
@@ -418,6 +429,8 @@ Inductive op :=
     (* bind: the ACK is recorded (handleAck); rq: the address a REQUEST names in option 50 *)
 | IS (isreq : bool) (sid vrf : N) (s6 : option N) (spd : option item) (o6 od : option N)
 | IR (sid : N)
+| IL (sid : N)       (* DHCPv6 RELEASE *)
+| Restart
 | IT (sid : N)
 | IA (sid : N).
 
@@ -431,6 +444,8 @@ Inductive out :=
 | OId (isreq : bool) (r : idres) (ctx4 : option N)
 | OIs (isreq : bool) (adv : option (option N * option item)) (err : bool) (ctx6 : option N) (ctxd : option item)
 | ORel (ir : bool)
+| ORel6
+| ORestart
 | OIa.
 
 Definition fallback_addr : N := 1681915905.   (* 100.64.0.1 *)
@@ -569,7 +584,7 @@ Definition unresolved (v : variant) (r : reg) (pr : prov) (s0 : sess) (isreq : b
               | Some t => if t =? l_ip l
                           then if prov_net_has r (l_ip l)
                                then Some (mkProv (lset id (mkLease (l_ip l) (l_mac l) (l_sid l) (l_pool l) false) (objs pr))
-                                                 (by_mac pr) (by_ip pr) (next_obj pr) (p6 pr), Some (l_ip l))
+                                                 (by_mac pr) (by_ip pr) (next_obj pr) (p6 pr) (store pr), Some (l_ip l))
                                else (if d7 v then Some (pr, None) else None)
                           else None
               | None => None
@@ -583,11 +598,13 @@ Definition unresolved (v : variant) (r : reg) (pr : prov) (s0 : sess) (isreq : b
   else None.
 Definition told_sess (s : sess) (x : N) (bind : bool) : sess :=
   mkSess (s_id s) false (s_prof4 s) (s_prof6 s) (s_mac s) true true (s_vrf s) (s_ov4 s) (s_ov6 s) (s_ovd s)
-         (s_a4 s) (s_a6 s) (s_ad s) None None (Some x) false (if bind then Some x else s_b4 s) (s_b6 s) (s_bd s).
+         (s_a4 s) (s_a6 s) (s_ad s) None None (Some x) (s_ipcp s) (if bind then Some x else s_b4 s) (s_b6 s) (s_bd s).
 Definition id_nil (v : variant) (st : state) (r : reg) (s : sess) (isreq bind : bool) (rq : option N)
   : list (state * out) :=
   match unresolved v r (st_prov st) s isreq rq with
-  | Some (pr', Some x) => [(mkState r (put_sess (told_sess s x bind) (st_sess st)) pr', OId isreq (IdTold x) (s_a4 s))]
+  | Some (pr', Some x) =>
+      let s' := told_sess s x bind in
+      [(mkState r (put_sess s' (st_sess st)) (if bind then ckpt pr' s' else pr'), OId isreq (IdTold x) (s_a4 s))]
   | Some (_, None) => [(mkState r (put_sess s (st_sess st)) (st_prov st), OId isreq IdPanic (s_a4 s))]
   | None => [(mkState r (put_sess s (st_sess st)) (st_prov st), OId isreq IdNil (s_a4 s))]
   end.
@@ -599,7 +616,7 @@ Definition step_id_core (v : variant) (st : state) (s0 : sess) (isreq bind : boo
     bindl (acquire v F4 (s_prof4 s0) (s_ov4 s0) (s_vrf s0) (s_id s0) (oitem (s_a4 s0)) (st_reg st)) (fun c =>
       match c with (r1, a4, pk, ok) =>
       let s1 := mkSess (s_id s0) false (s_prof4 s0) (s_prof6 s0) (s_mac s0) true true (s_vrf s0) (s_ov4 s0)
-                       (s_ov6 s0) (s_ovd s0) (oaddr a4) (s_a6 s0) (s_ad s0) None None (s_told s0) false
+                       (s_ov6 s0) (s_ovd s0) (oaddr a4) (s_a6 s0) (s_ad s0) None None (s_told s0) (s_ipcp s0)
                        (s_b4 s0) (s_b6 s0) (s_bd s0) in
       match (if ok then oaddr a4 else None) with
       | None => id_nil v st r1 s1 isreq bind rq
@@ -608,8 +625,9 @@ Definition step_id_core (v : variant) (st : state) (s0 : sess) (isreq bind : boo
           | (pr', r2, true) =>
               let s2 := mkSess (s_id s1) false (s_prof4 s1) (s_prof6 s1) (s_mac s1) true true (s_vrf s1)
                                (s_ov4 s1) (s_ov6 s1) (s_ovd s1) (s_a4 s1) (s_a6 s1) (s_ad s1) None None (Some x)
-                               false (if bind then Some x else s_b4 s1) (s_b6 s1) (s_bd s1) in
-              [(mkState r2 (put_sess s2 (st_sess st)) pr', OId isreq (IdTold x) (s_a4 s2))]
+                               (s_ipcp s1) (if bind then Some x else s_b4 s1) (s_b6 s1) (s_bd s1) in
+              (* handleAck checkpoints the session *)
+              [(mkState r2 (put_sess s2 (st_sess st)) (if bind then ckpt pr' s2 else pr'), OId isreq (IdTold x) (s_a4 s2))]
           | (pr', r2, false) => [(mkState r2 (put_sess s1 (st_sess st)) pr', OId isreq IdErr (s_a4 s1))]
           end
       end
@@ -627,9 +645,14 @@ Definition is_ctx (s : sess) (vrf : N) (s6 : option N) (spd : option item) (o6 o
            None (match s_prof6 s with Some _ => s6 | None => None end)
            (match s_prof6 s with Some _ => spd | None => None end) None None None false
            None None None.
+(* handleDHCPv6Solicit records the client's DUID in the session (handleDHCPv6Request does not) *)
+Definition mark_duid (isreq : bool) (s : sess) : sess :=
+  if isreq then s else
+  mkSess (s_id s) (s_ppp s) (s_prof4 s) (s_prof6 s) (s_mac s) (s_live s) (s_started s) (s_vrf s) (s_ov4 s) (s_ov6 s)
+         (s_ovd s) (s_a4 s) (s_a6 s) (s_ad s) (s_p4 s) (s_p6 s) (s_told s) true (s_b4 s) (s_b6 s) (s_bd s).
 Definition is_mk (s0 : sess) (a6 : option N) (ad : option item) (b6 : option N) (bd : option item) : sess :=
   mkSess (s_id s0) false (s_prof4 s0) (s_prof6 s0) (s_mac s0) true true (s_vrf s0) (s_ov4 s0) (s_ov6 s0)
-         (s_ovd s0) (s_a4 s0) a6 ad None None (s_told s0) false (s_b4 s0) b6 bd.
+         (s_ovd s0) (s_a4 s0) a6 ad None None (s_told s0) (s_ipcp s0) (s_b4 s0) b6 bd.
 Definition step_is_core (v : variant) (st : state) (s0 : sess) (isreq : bool) : list (state * out) :=
   match s_prof6 s0 with
   | None => [(mkState (st_reg st) (put_sess s0 (st_sess st)) (st_prov st), OIs isreq None false (s_a6 s0) (s_ad s0))]
@@ -653,7 +676,11 @@ Definition step_is_core (v : variant) (st : state) (s0 : sess) (isreq : bool) : 
               (* the real local DHCPv6 provider: SOLICIT -> ADVERTISE, REQUEST -> REPLY (which binds) *)
               match prov6_resolved (p6 (st_prov st)) (s_id s0) (s_mac s0) isreq (oaddr a6) ad k6 kd with
               | (q', true) =>
-                  [(mkState r2 (put_sess (is_mk s0 (oaddr a6) ad (oaddr a6) ad) (st_sess st)) (with_p6 (st_prov st) q'),
+                  (* only the REPLY binds (handleDHCPv6Reply), and it checkpoints the session *)
+                  let s' := if isreq then is_mk s0 (oaddr a6) ad (oaddr a6) ad
+                            else is_mk s0 (oaddr a6) ad (s_b6 s0) (s_bd s0) in
+                  let pr' := with_p6 (st_prov st) q' in
+                  [(mkState r2 (put_sess s' (st_sess st)) (if isreq then ckpt pr' s' else pr'),
                     OIs isreq (Some (oaddr a6, ad)) false (oaddr a6) ad)]
               | (q', false) =>
                   [(mkState r2 (put_sess (is_mk s0 (oaddr a6) ad (s_b6 s0) (s_bd s0)) (st_sess st)) (with_p6 (st_prov st) q'),
@@ -664,7 +691,8 @@ Definition step_is_core (v : variant) (st : state) (s0 : sess) (isreq : bool) : 
       end)
   end.
 Definition step_is (v : variant) (st : state) (s : sess) (isreq : bool) (vrf : N) (s6 : option N) (spd : option item)
-           (o6 od : option N) : list (state * out) := step_is_core v st (is_ctx s vrf s6 spd o6 od) isreq.
+           (o6 od : option N) : list (state * out) :=
+  step_is_core v st (mark_duid isreq (is_ctx s vrf s6 spd o6 od)) isreq.
 
 (* IPoE release sequences: handleRelease / cleanupSessions (ir = true) and handleSubscriberTerminate *)
 Definition step_rel (v : variant) (st : state) (s : sess) (ir : bool) : list (state * out) :=
@@ -685,8 +713,84 @@ Definition step_rel (v : variant) (st : state) (s : sess) (ir : bool) : list (st
                  | None => [r3]
                  end in
       map (fun r4 =>
-             let '(q', r5) := if ir then prov6_release v (p6 pr') r4 (s_mac s) (s_id s) else (p6 pr', r4) in
-             (mkState r5 (put_sess (set_live s false) (st_sess st)) (with_p6 pr' q'), ORel ir)) rds)).
+             (* the DHCPv6 lease is released through the DUID the session recorded, if any *)
+             let '(q', r5) := if ir && s_ipcp s then prov6_release v (p6 pr') r4 (s_mac s) (s_id s) else (p6 pr', r4) in
+             (mkState r5 (put_sess (set_live s false) (st_sess st)) (unckpt (with_p6 pr' q') (s_id s)), ORel ir)) rds)).
+
+(* handleRelease of a unified session whose DHCPv6 bindings stay: only IPv4 is given back, the session lives on
+   and is checkpointed *)
+Definition drop4 (s : sess) : sess :=
+  mkSess (s_id s) (s_ppp s) (s_prof4 s) (s_prof6 s) (s_mac s) (s_live s) (s_started s) (s_vrf s) (s_ov4 s) (s_ov6 s)
+         (s_ovd s) (s_a4 s) (s_a6 s) (s_ad s) (s_p4 s) (s_p6 s) None (s_ipcp s) None (s_b6 s) (s_bd s).
+Definition drop6 (s : sess) : sess :=
+  mkSess (s_id s) (s_ppp s) (s_prof4 s) (s_prof6 s) (s_mac s) (s_live s) (s_started s) (s_vrf s) (s_ov4 s) (s_ov6 s)
+         (s_ovd s) (s_a4 s) (s_a6 s) (s_ad s) (s_p4 s) (s_p6 s) (s_told s) (s_ipcp s) (s_b4 s) None None.
+Definition v6bound (s : sess) : bool :=
+  match s_b6 s, s_bd s with None, None => false | _, _ => true end.
+Definition step_rel4p (v : variant) (st : state) (s : sess) : list (state * out) :=
+  let r4s := match s_b4 s with
+             | Some a => release_ip v F4 (addr_item a) (s_vrf s) (s_id s) (st_reg st)
+             | None => [st_reg st]
+             end in
+  map (fun r1 =>
+         let '(pr', r2) := prov_release v (st_prov st) r1 (s_mac s) (s_id s) in
+         let s' := drop4 s in
+         (mkState r2 (put_sess s' (st_sess st)) (ckpt pr' s'), ORel true)) r4s.
+(* handleDHCPv6Release: the provider handles the RELEASE, the bindings are released by address; a session with a
+   bound IPv4 address lives on (checkpointed), otherwise it is deleted (DHCPv4 lease entry and image dropped) *)
+Definition step_rel6 (v : variant) (st : state) (s : sess) : list (state * out) :=
+  let '(q1, r1) := prov6_release v (p6 (st_prov st)) (st_reg st) (s_mac s) (s_id s) in
+  let r6s := match s_b6 s with
+             | Some a => release_ip v F6 (addr_item a) (s_vrf s) (s_id s) r1
+             | None => [r1]
+             end in
+  bindl r6s (fun r2 =>
+    let rds := match s_bd s with
+               | Some x => release_ip v FD x (s_vrf s) (s_id s) r2
+               | None => [r2]
+               end in
+    map (fun r3 =>
+           let pr1 := with_p6 (st_prov st) q1 in
+           match s_b4 s with
+           | Some _ => let s' := drop6 s in (mkState r3 (put_sess s' (st_sess st)) (ckpt pr1 s'), ORel6)
+           | None => let '(pr2, r4) := prov_release v pr1 r3 (s_mac s) (s_id s) in
+                     (mkState r4 (put_sess (set_live s false) (st_sess st)) (unckpt pr2 (s_id s)), ORel6)
+           end) rds).
+
+Definition new_sess (id : N) (ppp : bool) (prof4 prof6 : option N) (mac : N) : sess :=
+  mkSess id ppp prof4 prof6 mac true false 0 None None None None None None None None None false None None None.
+(* restart: registry, provider tables and sessions are gone; restoreSessions brings back every session that has
+   an image (installInMemoryState re-reserves the image's addresses; a conflict is only logged: flag d8).
+   PPPoE sessions are outside this model's restore and simply end. *)
+Definition reset_pool (p : pool) : pool := with_lf p [] (init_free (p_geom p)).
+Definition reserve_first (v : variant) (f : fam) (x : option item) (vrf sid : N) (r : reg) : reg * option item :=
+  match x with
+  | None => (r, None)
+  | Some i => match reserve_cont v f i vrf sid r with
+              | (r', ok) :: _ => (r', if ok || d8 v then Some i else None)
+              | [] => (r, if d8 v then Some i else None)
+              end
+  end.
+Definition restore_one (v : variant) (st0 : list (N * sess)) (acc : reg * list sess) (s : sess) : reg * list sess :=
+  let (r, done) := acc in
+  match (if s_ppp s then None else passoc (s_id s) st0) with
+  | None =>
+      (* a subscriber that has not arrived yet is unaffected; an established session without an image is gone *)
+      (r, done ++ [if s_started s then set_live s false
+                   else new_sess (s_id s) (s_ppp s) (s_prof4 s) (s_prof6 s) (s_mac s)])
+  | Some im =>
+      let '(r1, b4) := reserve_first v F4 (oitem (s_b4 im)) (s_vrf im) (s_id s) r in
+      let '(r2, b6) := reserve_first v F6 (oitem (s_b6 im)) (s_vrf im) (s_id s) r1 in
+      let '(r3, bd) := reserve_first v FD (s_bd im) (s_vrf im) (s_id s) r2 in
+      (r3, done ++ [mkSess (s_id s) false (s_prof4 im) (s_prof6 im) (s_mac im) true true (s_vrf im) (s_ov4 im)
+                           (s_ov6 im) (s_ovd im) (s_a4 im) (s_a6 im) (s_ad im) None None (oaddr b4) (s_ipcp im)
+                           (oaddr b4) (oaddr b6) bd])
+  end.
+Definition step_restart (v : variant) (st : state) : list (state * out) :=
+  let r0 := mkReg (map reset_pool (pools (st_reg st))) [] in
+  let st0 := store (st_prov st) in
+  let (r', ss) := fold_left (restore_one v st0) (st_sess st) (r0, []) in
+  [(mkState r' ss (mkProv [] [] [] 0 (mkProv6 [] [] [] []) st0), ORestart)].
 
 Definition skip (st : state) : list (state * out) := [(st, OSkip)].
 
@@ -717,9 +821,16 @@ Definition step (v : variant) (st : state) (o : op) : list (state * out) :=
       | Some s => if negb (s_ppp s) && s_live s then step_is v st s isreq vrf s6 spd o6 od else skip st
       | None => skip st
       end
+  | Restart => step_restart v st
+  | IL sid =>
+      match find_sess sid st with
+      | Some s => if negb (s_ppp s) && s_live s then step_rel6 v st s else skip st
+      | None => skip st
+      end
   | IR sid =>
       match find_sess sid st with
-      | Some s => if negb (s_ppp s) && s_live s then step_rel v st s true else skip st
+      | Some s => if negb (s_ppp s) && s_live s
+                  then (if v6bound s then step_rel4p v st s else step_rel v st s true) else skip st
       | None => skip st
       end
   | IT sid =>
@@ -735,10 +846,8 @@ Definition step (v : variant) (st : state) (o : op) : list (state * out) :=
       end
   end.
 
-Definition new_sess (id : N) (ppp : bool) (prof4 prof6 : option N) (mac : N) : sess :=
-  mkSess id ppp prof4 prof6 mac true false 0 None None None None None None None None None false None None None.
 Definition init_state (ps : list pool) (ss : list sess) : state :=
-  mkState (mkReg ps []) ss (mkProv [] [] [] 0 (mkProv6 [] [] [] [])).
+  mkState (mkReg ps []) ss (mkProv [] [] [] 0 (mkProv6 [] [] [] []) []).
 
 (* ---------------------------------------------------------------- property-level observables *)
 (* what a live session has been told / records as its own address in a family *)
